@@ -42,10 +42,12 @@ type FuncSpec struct {
 	NoSafety   bool
 	SafetyProp []string
 	Refines    []string
+	RefineExcept map[string]bool // labels of refined clauses left unproved
 	DynCalls   map[int]string // dynamic call ordinal -> fnspec name
 	Params     []string       // for fnspec: parameter names
 	Results    []string       // for fnspec / explicit result naming
 	IsFnSpec   bool
+	Slots      bool
 	MayPanic   bool
 	AllocFresh bool // results are freshly allocated
 	Splits     []*Split
@@ -268,6 +270,8 @@ func ParseFile(path, defaultPkg string) (*File, error) {
 					return nil, err
 				}
 				curLoop.Decreases = c
+			case "slots":
+				cur.Slots = true // fnspec: every function stored by the package init with this signature must refine it
 			case "assumed", "trusted", "external":
 				cur.Assumed = true
 			case "inline":
@@ -283,7 +287,20 @@ func ParseFile(path, defaultPkg string) (*File, error) {
 			case "safety":
 				cur.SafetyProp = strings.Fields(strings.ReplaceAll(rest, ",", " "))
 			case "refines":
-				cur.Refines = append(cur.Refines, strings.Fields(rest)...)
+				// refines <FnSpec> [except label1,label2]: excepted clauses are left unproved (assumed)
+				fs := strings.Fields(rest)
+				if len(fs) == 0 {
+					return nil, fail("refines <fnspec>")
+				}
+				cur.Refines = append(cur.Refines, fs[0])
+				if len(fs) >= 3 && fs[1] == "except" {
+					if cur.RefineExcept == nil {
+						cur.RefineExcept = map[string]bool{}
+					}
+					for _, l := range strings.Split(strings.Join(fs[2:], ""), ",") {
+						cur.RefineExcept[l] = true
+					}
+				}
 			case "results":
 				cur.Results = strings.Fields(strings.ReplaceAll(rest, ",", " "))
 			case "dyncall":
